@@ -45,3 +45,7 @@ add("C14", "SEQ", "model_checking", "explicit-state BFS over request histories p
 add("C05", "SEQ", "model_checking", "explicit-state BFS over push/delete/time/collection histories on the implementation (bounded depth) with the real ticker goroutine driven by a virtual clock",
     "All histories up to the depth bound of complete and step-by-step pushes over an object-graph universe (images, nested indexes, referrers of referrers, dangling and circular subjects, a digest in several roles), deletes, virtual time and collection ticks (delivered to the real gcTicker; the directory store also collects through its repository cache timer) are explored for 8 / 32 policy combinations on both stores; in every distinct state the model's must-retain set must be served. The schedule part (a pending tick racing a step-by-step push) is part of the SCHED scenarios.",
     TRUSTED, "DESIGN.md section 4 C05")
+
+add("C06", "SEQ", "model_checking", "explicit-state BFS over push/delete/settle histories with the real ticker goroutine on a virtual clock; all visit orders of a pass via the map-iteration seam",
+    "Part A: all histories up to the depth bound over an object-graph universe for the five documented policy combinations x grace/tick settings on both stores; after a regular pass (idle, and with read traffic that keeps the repository in the cache) exactly the model's retained set is served, no index entry lacks content, empty repositories are removed and a second pass changes nothing. Part B: three repositories of kinds healthy / never written / corrupt / removed from disk collected in all 6 visit orders; every healthy repository must reach the result it reaches alone.",
+    TRUSTED, "DESIGN.md section 4 C06")
